@@ -1291,6 +1291,58 @@ def derive_assertions(rng, beh):
     return out
 
 
+OUTCOME_KEYS = {"ok": "Val", "skip": "Skip", "depSkip": "DepSkip", "retry": "Retry", "permFail": "PermFail"}
+
+
+def borderline_spellings(beh):
+    """null / empty / schema-borderline spellings of every expectation: [(testCase fragment, rule, label)].
+    Such a case is either rejected at prepare (no verdict — always acceptable) or, when it IS prepared, judged by the
+    property's rule for what it says.  rule: ("iff", b) = the verdict must be b;  ("only-if", b) = it may pass only
+    if b (used where the spelling leaves the message / delay open);  None = no ground truth."""
+    a = beh["actual"][0]
+    out = []
+    for body, lab in ((None, "null"), ({}, "empty"), ({"anything": 1}, "extra-key")):
+        out.append(({"expectOutcome": {"ok": body}}, ("iff", a == "Val"), f"outcome-spelled-ok-{lab}"))
+    for k, cls in OUTCOME_KEYS.items():
+        if k == "ok":
+            continue
+        same = a == cls
+        for body, lab in ((None, "null"), ({}, "empty"), ({"message": None}, "message-null")):
+            out.append(({"expectOutcome": {k: body}}, ("only-if", same), f"outcome-spelled-{k}-{lab}"))
+    for body, lab in (({"message": ""}, "no-delay"), ({"message": "", "delay": None}, "delay-null"),
+                      ({"message": "", "delay": "0"}, "delay-string"), ({"message": "", "delay": 0.0}, "delay-float"),
+                      ({"message": "", "delay": False}, "delay-bool")):
+        out.append(({"expectOutcome": {"retry": body}}, ("only-if", a == "Retry"), f"outcome-spelled-retry-{lab}"))
+    out.append(({"expectOutcome": {"skip": {"message": ""}, "permFail": {"message": ""}}},
+                ("only-if", a in ("Skip", "PermFail")), "outcome-spelled-two-classes"))
+    out.append(({"expectOutcome": {"ok": {}, "permFail": {"message": ""}}},
+                ("only-if", a in ("Val", "PermFail")), "outcome-spelled-ok-and-permfail"))
+    out.append(({"expectOutcome": {"ok": None, "retry": None}}, ("only-if", a in ("Val", "Retry")), "outcome-spelled-ok-null-retry-null"))
+    # absent-by-null companions must not change what the one real assertion says
+    out.append(({"expectReturn": None, "expectOutcome": {"ok": {}}}, ("iff", a == "Val"), "outcome-spelled-ok-with-null-return"))
+    if beh["fkind"] == "ResourceFunction":
+        out.append(({"expectResource": None, "expectDelete": None, "expectOutcome": {"ok": None}}, ("iff", a == "Val"),
+                    "outcome-spelled-ok-null-with-null-others"))
+        out.append(({"expectDelete": None, "expectOutcome": {"ok": {}}}, ("iff", a == "Val"), "outcome-spelled-ok-with-null-delete"))
+        for v, lab in ((1, "one"), (0, "zero")):
+            out.append(({"expectDelete": v}, ("iff", beh["deleted"] == bool(v)), f"delete-spelled-{lab}"))
+        for v, lab in (("true", "string"), ([], "list")):
+            out.append(({"expectDelete": v}, ("only-if", beh["deleted"]), f"delete-spelled-{lab}"))
+        for v, lab in (([], "list"), ("text", "string"), (0, "zero")):
+            out.append(({"expectResource": v}, ("only-if", False), f"resource-spelled-{lab}"))
+    # an expectation that is not an object cannot describe a return value (always an object or nothing)
+    for v, lab in (([], "list"), ("text", "string"), (0, "zero"), (False, "false")):
+        out.append(({"expectReturn": v}, ("only-if", False), f"return-spelled-{lab}"))
+    # nothing asserted at all
+    for frag, lab in (({"expectOutcome": None}, "outcome-null"), ({"expectReturn": None}, "return-null"),
+                      ({"expectOutcome": {}}, "outcome-empty"), ({"expectReturn": {}}, "return-empty")):
+        out.append((frag, ("only-if", False), f"nothing-spelled-{lab}"))
+    if beh["fkind"] == "ResourceFunction":
+        out.append(({"expectResource": None}, ("only-if", False), "nothing-spelled-resource-null"))
+        out.append(({"expectDelete": None}, ("only-if", False), "nothing-spelled-delete-null"))
+    return out
+
+
 def model_assert(frag, tc):
     """the model-side assertion for a prepared TestCase (ExpectOutcome taken from the REAL prepared object)"""
     from koreo.function_test import structure
@@ -1365,6 +1417,33 @@ def e2e_cases(ctx: Ctx):
                             if j < len(lres.test_results):
                                 again = 1 if lres.test_results[j].test_pass else 0
                                 yield (dict(case, run=nrun), truth, again, f"{lab}@run{nrun}", None, None)
+                # ---- null / empty / borderline spellings: one FunctionTest each (a rejection rejects the whole test)
+                spellings = borderline_spellings(beh)
+                spellings = rng.sample(spellings, 8 if ctx.quick() else 12)
+                for frag, rule, lab in spellings:
+                    case = {"kind": "e2e", "function": fn, "testCase": frag, "label": lab}
+                    try:
+                        res, rec, ft, _ = loop.run_until_complete(run_tests(fn, [dict(frag, variant=True)]))
+                    except Exception as ex:
+                        yield (case, False, 2, lab, None, repr(ex))
+                        continue
+                    if rec is None or not res.test_results:
+                        ctx.count(f"e2e:spelling:{lab}:rejected-at-prepare")
+                        continue
+                    passed = 1 if res.test_results[0].test_pass else 0
+                    ctx.count(f"e2e:spelling:{lab}:prepared-{'pass' if passed else 'fail'}")
+                    a2 = rec.apis[0] if rec.apis else None
+                    vcase = None
+                    if a2 is not None and rec.results:
+                        obs = {"actual": obs_outcome(rec.results[0]), "mat": copy.deepcopy(a2.materialized),
+                               "called": a2._api_called, "deleted": a2._delete_called}
+                        vcase = {"kind": "verdict", "assert": model_assert(frag, ft.test_cases[0]), "obs": obs}
+                    if rule[0] == "iff":
+                        yield (case, rule[1], passed, lab, vcase, None)
+                    elif passed and not rule[1]:
+                        yield (case, False, passed, lab, vcase, None)
+                    elif vcase is not None:
+                        yield (case, bool(passed), passed, lab, vcase, None)     # correspondence only
             finally:
                 reset_koreo()
     finally:
@@ -1597,9 +1676,11 @@ def run(ctx: Ctx):
             base = lab.split("@")[0]
             sig = (f"e2e: truthful {base.split('-')[0]} assertion fails" if truth
                    else f"e2e: deviation passes ({base})")
+            if "-spelled-" in base:
+                sig = f"e2e: a prepared case spelled {base} gets the wrong verdict"
             if case.get("run"):
                 sig += " when the same prepared FunctionTest is run again"
-            ctx.fail(Failure(signature=sig, what=(("the assertion derived from the Function's real behaviour does not pass"
+            ctx.fail(Failure(signature=sig, what=((f"the assertion derived from the Function's real behaviour ({base}) does not pass"
                                                    if truth else f"a single deviation ({base}) of the truthful assertion still passes")
                                                   + (f" (run {case['run']} of the same prepared FunctionTest object)" if case.get("run") else "")),
                              case=case, observed={"test_pass": bool(passed), "behaviour": vcase["obs"] if vcase else None},
